@@ -7,6 +7,7 @@ import Proofs.Lemmas.CtlShape
 import Generated.C02Shapes
 import Proofs.Lemmas.CtlScan
 import Generated.C02BodyScans
+import Proofs.Lemmas.CtlTable
 /-!
 # C02 — control flow and function calls behave as the reference semantics prescribe
 
@@ -598,5 +599,69 @@ example : scanBlk tieSeededScan.opened
       (.cons (.node (.cons "ForStatement.Body" (.cons .hit .nil) .nil)) .nil) .nil)) .nil) .nil)) .nil)) = true := by decide
 
 end BodyScan
+
+/-! ## a clause list dispatched through a construction-time table (round 8)
+
+`switch` / `match` / `if-elseif` are ordered scans: the FIRST clause carrying the key is the entry point and the tests
+in front of it are evaluated. A table built when the node is constructed may replace the scan exactly when it maps
+every key to the first clause carrying it and the scan would have performed no effect. (`Model.CtlTable`; the harness
+stream `clause-list` runs clause lists with repeated and loosely-equal keys on the real code.) -/
+section ClauseTable
+open Model.CtlTable Proofs.CtlTable
+
+/-- one lookup equals the ordered scan for every condition **iff** the table maps each key to the first clause
+carrying it (and keys no clause carries to nothing) -/
+theorem C02_table_dispatch_iff_first_wins (ls : List Nat) (t : Table) :
+    (∀ k, tableDispatch t k = scanDispatch ls k) ↔ FirstWins ls t :=
+  (firstWins_iff ls t).symm
+
+/-- the guarded construction loop (`if _, ok := t[l]; !ok { t[l] = i }`) builds exactly the scan, for every clause list -/
+theorem C02_table_guarded_build_exact (ls : List Nat) (k : Nat) :
+    tableDispatch (buildBy true ls 0 Table.empty) k = scanDispatch ls k := by
+  rw [tableDispatch, buildBy_guarded]
+  cases scanDispatch ls k <;> simp [Table.empty]
+
+/-- the plain construction loop (`t[l] = i`, the seeded one) dispatches to the LAST clause carrying the key -/
+theorem C02_table_overwrite_build_last (ls : List Nat) (k : Nat) :
+    tableDispatch (buildBy false ls 0 Table.empty) k = lastDispatch ls k := by
+  rw [tableDispatch, buildBy_overwrite]
+  cases lastDispatch ls k <;> simp [Table.empty]
+
+/-- … so it is exact on a clause list **iff** no key is repeated -/
+theorem C02_table_overwrite_exact_iff_nodup (ls : List Nat) :
+    (∀ k, tableDispatch (buildBy false ls 0 Table.empty) k = scanDispatch ls k) ↔ ls.Nodup := by
+  rw [← last_eq_scan_iff_nodup]
+  exact forall_congr' fun k => by rw [C02_table_overwrite_build_last]
+
+/-- the lookup evaluates no label; the scan performs no effect for condition `k` **iff** every label up to and
+including the first that carries `k` is effect-free -/
+theorem C02_table_scan_effect_free_iff (cs : List Clause) (k : Nat) :
+    scanEffects cs 0 k = [] ↔
+      ∀ (n : Nat) (c : Clause), cs[n]? = some c →
+        (∀ j : Nat, j < n → (cs[j]?.map Clause.key) ≠ some k) → c.effect = false :=
+  scanEffects_nil_iff cs 0 k
+
+/-- negation witness (the seeded change; the harness replays it on the real code): labels 1, 2, 3, 2 — the scan enters
+`case 2` at clause 1, the overwriting table at clause 3; the guarded table agrees with the scan; and with an effectful
+label in front the scan prints where the lookup does not -/
+theorem C02_table_last_wins_counterexample :
+    scanDispatch [1, 2, 3, 2] 2 = some 1 ∧
+    tableDispatch (buildBy false [1, 2, 3, 2] 0 Table.empty) 2 = some 3 ∧
+    tableDispatch (buildBy true [1, 2, 3, 2] 0 Table.empty) 2 = some 1 ∧
+    ¬ FirstWins [1, 2, 3, 2] (buildBy false [1, 2, 3, 2] 0 Table.empty) ∧
+    scanEffects [⟨1, true⟩, ⟨2, false⟩] 0 2 = [0] := by
+  refine ⟨by decide, by decide, by decide, ?_, by decide⟩
+  intro h
+  have := (C02_table_dispatch_iff_first_wins [1, 2, 3, 2] _).mpr h 2
+  revert this
+  decide
+
+-- non-vacuity: a list without repetition where both constructions agree with the scan, and one with an absent key
+example : [4, 7, 9].Nodup ∧ tableDispatch (buildBy false [4, 7, 9] 0 Table.empty) 7 = scanDispatch [4, 7, 9] 7 ∧
+    scanDispatch [4, 7, 9] 5 = none ∧ FirstWins [4, 7, 9] (buildBy false [4, 7, 9] 0 Table.empty) :=
+  ⟨by decide, by decide, by decide,
+   (C02_table_dispatch_iff_first_wins _ _).mp ((C02_table_overwrite_exact_iff_nodup _).mpr (by decide))⟩
+
+end ClauseTable
 
 end C02
